@@ -8,6 +8,15 @@ import os
 HERE = os.path.dirname(os.path.dirname(os.path.abspath(__file__)))
 
 CHECKS = {
+    "C01": dict(
+        category="exploration", design_ref="DESIGN.md §4 C01",
+        technique="bounded-exhaustive input-shape enumeration (template-driven generator) against an independent reference wire encoder",
+        text="All 481 templates x value rows covering every alphabet element of every variable x block-count variants x header variants are "
+             "encoded by the real serializer, compared byte-for-byte with an independent struct-based reference encoder (own template parser), "
+             "decoded eagerly and lazily and compared value-by-value (floats bit-exact); default-fill is enumerated per template and variable. "
+             "Exhaustive over the stated finite product, which is what a sequential codec with no cross-variable state needs.",
+        note="Values are drawn from boundary alphabets per wire type (8/16-bit boundaries, single large values for 32/64-bit), not full domains; "
+             "each-choice rows instead of full cross products; canonical value domain (see evidence assumptions)."),
     "C04": dict(
         category="model_checking", design_ref="DESIGN.md §4 C04",
         technique="explicit-state BFS over the real InjectionTracker (deepcopy successors, canonical state hashing, deviation bound)",
